@@ -121,3 +121,322 @@ macro_rules! signmag_i {
 }
 signmag_u!(u8, u64; u16, u64; u32, u64; u64, u128; u128, u128; usize, u128);
 signmag_i!(i8, u64; i16, u64; i32, u64; i64, u128; i128, u128; isize, u128);
+
+/// Oracle for integer output without division: `out` is the canonical numeral of
+/// (neg, mag) in `radix`: optional '-', no leading zeros, digits 0-9 then A-Z
+/// (upper case only), nothing else, every byte 7-bit ASCII.
+macro_rules! canonical_impl {
+    ($name:ident, $w:ty) => {
+        pub fn $name(out: &[u8], neg: bool, mag: $w, radix: u32, plus: bool) -> bool {
+            let mut i = 0usize;
+            if neg {
+                if out.len() == 0 || out[0] != b'-' {
+                    return false;
+                }
+                i = 1;
+            } else if plus {
+                if out.len() == 0 || out[0] != b'+' {
+                    return false;
+                }
+                i = 1;
+            }
+            if i >= out.len() {
+                return false;
+            }
+            if out[i] == b'0' && out.len() - i != 1 {
+                return false;
+            }
+            let mut v: $w = 0;
+            while i < out.len() {
+                let c = out[i];
+                if c >= 0x80 {
+                    return false;
+                }
+                let d = if c >= b'0' && c <= b'9' {
+                    (c - b'0') as u32
+                } else if c >= b'A' && c <= b'Z' {
+                    (c - b'A') as u32 + 10
+                } else {
+                    return false;
+                };
+                if d >= radix {
+                    return false;
+                }
+                v = match v.checked_mul(radix as $w) {
+                    Some(x) => match x.checked_add(d as $w) {
+                        Some(y) => y,
+                        None => return false,
+                    },
+                    None => return false,
+                };
+                i += 1;
+            }
+            v == mag
+        }
+    };
+}
+canonical_impl!(canonical_u64, u64);
+canonical_impl!(canonical_u128, u128);
+
+// ---------------------------------------------------------------------------
+// Float grammar reference (separator-free), parameterised by the syntax flags.
+
+#[derive(Clone, Copy, PartialEq, Eq, Debug)]
+pub enum FErr {
+    Empty,
+    EmptyMantissa,
+    EmptyExponent,
+    EmptyInteger,
+    EmptyFraction,
+    InvalidDigit,
+    InvalidPositiveSign,
+    MissingSign,
+    InvalidExponent,
+    ExponentWithoutFraction,
+    InvalidPositiveExponentSign,
+    MissingExponentSign,
+    MissingExponent,
+    InvalidLeadingZeros,
+    Other,
+}
+
+#[derive(Clone, Copy, PartialEq, Eq, Debug)]
+pub enum RefFloat {
+    /// consumed count, negative, mantissa digits as integer, decimal exponent
+    Num { count: usize, neg: bool, mant: u64, exp: i64 },
+    Nan { count: usize, neg: bool },
+    Inf { count: usize, neg: bool },
+    Err(FErr, usize),
+}
+
+#[derive(Clone, Copy)]
+pub struct Gram<'a> {
+    pub radix: u32,
+    pub exp_radix: u32,
+    pub decimal_point: u8,
+    pub exponent: u8,
+    pub nan: &'a [u8],
+    pub inf: &'a [u8],
+    pub infinity: &'a [u8],
+    pub required_integer_digits: bool,
+    pub required_fraction_digits: bool,
+    pub required_exponent_digits: bool,
+    pub required_mantissa_digits: bool,
+    pub no_positive_mantissa_sign: bool,
+    pub required_mantissa_sign: bool,
+    pub no_exponent_notation: bool,
+    pub no_positive_exponent_sign: bool,
+    pub required_exponent_sign: bool,
+    pub no_exponent_without_fraction: bool,
+    pub no_special: bool,
+    pub case_sensitive_special: bool,
+    pub no_float_leading_zeros: bool,
+    pub required_exponent_notation: bool,
+    pub case_sensitive_exponent: bool,
+}
+
+pub const STD_GRAM: Gram<'static> = Gram {
+    radix: 10,
+    exp_radix: 10,
+    decimal_point: b'.',
+    exponent: b'e',
+    nan: b"NaN",
+    inf: b"inf",
+    infinity: b"infinity",
+    required_integer_digits: false,
+    required_fraction_digits: false,
+    required_exponent_digits: true,
+    required_mantissa_digits: true,
+    no_positive_mantissa_sign: false,
+    required_mantissa_sign: false,
+    no_exponent_notation: false,
+    no_positive_exponent_sign: false,
+    required_exponent_sign: false,
+    no_exponent_without_fraction: false,
+    no_special: false,
+    case_sensitive_special: false,
+    no_float_leading_zeros: false,
+    required_exponent_notation: false,
+    case_sensitive_exponent: false,
+};
+
+#[inline]
+fn lower(c: u8) -> u8 {
+    if c >= b'A' && c <= b'Z' {
+        c + 32
+    } else {
+        c
+    }
+}
+
+fn special_prefix(s: &[u8], from: usize, pat: &[u8], cased: bool) -> bool {
+    if pat.len() == 0 || s.len() - from < pat.len() {
+        return false;
+    }
+    let mut k = 0;
+    while k < pat.len() {
+        let a = s[from + k];
+        let b = pat[k];
+        if cased {
+            if a != b {
+                return false;
+            }
+        } else if lower(a) != lower(b) {
+            return false;
+        }
+        k += 1;
+    }
+    true
+}
+
+/// Special-value recognition after the sign: (is_nan, consumed) or None.
+fn ref_special(s: &[u8], from: usize, g: &Gram, partial: bool) -> Option<(bool, usize)> {
+    if g.no_special {
+        return None;
+    }
+    let cands: [(&[u8], bool); 3] = [(g.nan, true), (g.infinity, false), (g.inf, false)];
+    let mut k = 0;
+    while k < 3 {
+        let (pat, is_nan) = cands[k];
+        if special_prefix(s, from, pat, g.case_sensitive_special) {
+            let end = from + pat.len();
+            if partial || end == s.len() {
+                return Some((is_nan, end));
+            }
+            // complete parser: the first matching string must span the input
+            return None;
+        }
+        k += 1;
+    }
+    None
+}
+
+/// The numeric part of the grammar: sign already consumed up to `i0`.
+fn ref_number(s: &[u8], i0: usize, neg: bool, g: &Gram, partial: bool) -> RefFloat {
+    let mut i = i0;
+    let start = i;
+    let mut mant: u64 = 0;
+    let mut n_int = 0usize;
+    while i < s.len() {
+        match digit(s[i], g.radix) {
+            Some(d) => {
+                mant = mant.wrapping_mul(g.radix as u64).wrapping_add(d as u64);
+                n_int += 1;
+                i += 1;
+            },
+            None => break,
+        }
+    }
+    if g.required_integer_digits && n_int == 0 {
+        return RefFloat::Err(FErr::EmptyInteger, i);
+    }
+    if g.no_float_leading_zeros && n_int > 1 && s[start] == b'0' {
+        return RefFloat::Err(FErr::InvalidLeadingZeros, start);
+    }
+    let mut n_frac = 0usize;
+    let has_decimal = i < s.len() && s[i] == g.decimal_point;
+    if has_decimal {
+        i += 1;
+        while i < s.len() {
+            match digit(s[i], g.radix) {
+                Some(d) => {
+                    mant = mant.wrapping_mul(g.radix as u64).wrapping_add(d as u64);
+                    n_frac += 1;
+                    i += 1;
+                },
+                None => break,
+            }
+        }
+        if g.required_fraction_digits && n_frac == 0 {
+            return RefFloat::Err(FErr::EmptyFraction, i);
+        }
+    }
+    let has_exp = i < s.len()
+        && if g.case_sensitive_exponent { s[i] == g.exponent } else { lower(s[i]) == lower(g.exponent) };
+    if g.required_mantissa_digits && n_int + n_frac == 0 {
+        if has_decimal || has_exp || partial {
+            return RefFloat::Err(FErr::EmptyMantissa, i);
+        }
+        return RefFloat::Err(FErr::InvalidDigit, start);
+    }
+    let mut exp: i64 = -(n_frac as i64);
+    if has_exp {
+        i += 1;
+        if g.no_exponent_notation {
+            return RefFloat::Err(FErr::InvalidExponent, i - 1);
+        }
+        if g.no_exponent_without_fraction && !has_decimal {
+            return RefFloat::Err(FErr::ExponentWithoutFraction, i - 1);
+        }
+        let mut eneg = false;
+        if i < s.len() && s[i] == b'+' {
+            if g.no_positive_exponent_sign {
+                return RefFloat::Err(FErr::InvalidPositiveExponentSign, i);
+            }
+            i += 1;
+        } else if i < s.len() && s[i] == b'-' {
+            eneg = true;
+            i += 1;
+        } else if g.required_exponent_sign {
+            return RefFloat::Err(FErr::MissingExponentSign, i);
+        }
+        let mut e: i64 = 0;
+        let mut n_exp = 0usize;
+        while i < s.len() {
+            match digit(s[i], g.exp_radix) {
+                Some(d) => {
+                    if e < 0x10000000 {
+                        e = e * g.exp_radix as i64 + d as i64;
+                    }
+                    n_exp += 1;
+                    i += 1;
+                },
+                None => break,
+            }
+        }
+        if g.required_exponent_digits && n_exp == 0 {
+            return RefFloat::Err(FErr::EmptyExponent, i);
+        }
+        exp += if eneg { -e } else { e };
+    } else if g.required_exponent_notation {
+        return RefFloat::Err(FErr::MissingExponent, i);
+    }
+    if !g.required_mantissa_digits && n_int + n_frac == 0 {
+        exp = 0;
+    }
+    if !partial && i != s.len() {
+        return RefFloat::Err(FErr::InvalidDigit, i);
+    }
+    RefFloat::Num { count: i, neg, mant, exp }
+}
+
+/// Reference recogniser for the separator-free float grammar.
+pub fn ref_float(s: &[u8], g: &Gram, partial: bool) -> RefFloat {
+    let mut i = 0usize;
+    let mut neg = false;
+    if i < s.len() && s[i] == b'+' {
+        if g.no_positive_mantissa_sign {
+            return RefFloat::Err(FErr::InvalidPositiveSign, 0);
+        }
+        i += 1;
+    } else if i < s.len() && s[i] == b'-' {
+        neg = true;
+        i += 1;
+    } else if g.required_mantissa_sign {
+        return RefFloat::Err(FErr::MissingSign, 0);
+    }
+    if i == s.len() {
+        if g.required_integer_digits || g.required_mantissa_digits {
+            return RefFloat::Err(FErr::Empty, i);
+        }
+        return RefFloat::Num { count: i, neg: false, mant: 0, exp: 0 };
+    }
+    match ref_number(s, i, neg, g, partial) {
+        RefFloat::Err(k, idx) => match ref_special(s, i, g, partial) {
+            Some((true, c)) => RefFloat::Nan { count: c, neg },
+            Some((false, c)) => RefFloat::Inf { count: c, neg },
+            None => RefFloat::Err(k, idx),
+        },
+        ok => ok,
+    }
+}
